@@ -57,7 +57,7 @@ def run(ctx):
         ctx.model_check("store/MCFreezer", "store/MCFreezer1T", timeout=T, name="MCFreezer-1table-deeper", workers=6)
         ctx.model_check("store/MCFreezer", "store/MCFreezer2", timeout=T, name="MCFreezer-2tables-3items", workers=8)
     # R: call histories sampled by TLC from the model (simulation mode) drive the real freezer first
-    sim = ctx.tlc("store/MCFreezer", "store/MCFreezerSim", simulate="num=%d" % ctx.pick(2, 12), depth=400, workers=2,
+    sim = ctx.tlc("store/MCFreezer", "store/MCFreezerSim", simulate="num=%d" % ctx.pick(1, 12), depth=400, workers=2,
                   timeout=T, tags=("MBT",), deadlock=False, name="MCFreezer-simulate")
     if sim.error or sim.timeout:
         raise InfraError("TLC simulation failed: %s" % (sim.error or "timeout"))
@@ -70,7 +70,7 @@ def run(ctx):
     hp = os.path.join(ctx.scratch, "tlc-histories.json")
     with open(hp, "w") as f:
         json.dump(hists, f)
-    ctx.cov["behaviours_replayed"] += 2 * len(hists)
+    ctx.cov["behaviours_replayed"] += len(hists) * (3 if ctx.thorough else 1)
     # XF + V: real histories, crash images, validated by the trace specification
     seen = {}
     cfgs = [("g2", "store/FreezerTraceG2"), ("mixed", "store/FreezerTraceMixed")]
@@ -78,10 +78,12 @@ def run(ctx):
         cfgs.append(("g3", "store/FreezerTraceG3"))      # three tables, two tail groups, one table not prunable
     for cfg, tcfg in cfgs:
         tp = os.path.join(ctx.scratch, "trace-%s.ndjson" % cfg)
-        args = ["-mode", "xf", "-cfg", cfg, "-unsynced-tail", "-scripts", hp, "-trace", tp, "-dir", os.path.join(ctx.scratch, "fz-" + cfg),
+        args = ["-mode", "xf", "-cfg", cfg, "-unsynced-tail", "-trace", tp, "-dir", os.path.join(ctx.scratch, "fz-" + cfg),
                 "-n", ctx.pick(2, 12), "-steps", ctx.pick(9, 14), "-images", ctx.pick(5, 14)]
         if ctx.thorough:
             args.append("-every-length")
+        if ctx.thorough or cfg == "g2":
+            args += ["-scripts", hp]                      # the TLC-sampled histories (quick: on one configuration)
         s, _ = ctx.drive(drv, args, name="c24-xf-" + cfg, timeout=T)
         ok, consumed, total, r = ctx.validate("store/FreezerTrace", tp, cfg=tcfg, ntraces=s["traces"], timeout=T,
                                               name="FreezerTrace-" + cfg)
@@ -97,7 +99,7 @@ def run(ctx):
                                     ("F2", "mixed", "store/FreezerTraceMixed", "a3,s,h0"),
                                     ("F3", "g2", "store/FreezerTraceG2", "a4,a4,a4,a4,a4,a4,s")):
         tp = os.path.join(ctx.scratch, "trace-%s.ndjson" % name)
-        ctx.drive(drv, ["-mode", "xf", "-cfg", cfg, "-script", script, "-images", 12, "-n", 1, "-trace", tp,
+        ctx.drive(drv, ["-mode", "xf", "-cfg", cfg, "-script", script, "-images", ctx.pick(4, 12), "-n", 1, "-trace", tp,
                         "-dir", os.path.join(ctx.scratch, "fz-" + name)], name="c24-finding-" + name, timeout=T)
         ok, consumed, total, r = ctx.validate("store/FreezerTrace", tp, cfg=tcfg, ntraces=1, timeout=T,
                                               name="FreezerTrace-finding-" + name)
